@@ -21,7 +21,7 @@ import tempfile
 import time
 
 
-MEMORY_LIMIT = 4 << 30      # address space of one run of the tool (a run that needs more ends in MemoryError)
+MEMORY_LIMIT = 2 << 30      # address space of one run of the tool (a run that needs more ends in MemoryError)
 
 
 def serve(tool, modname, limit):
